@@ -266,11 +266,8 @@ def compile_loop_shape():
 
 
 def generate():
-<<<<<<< HEAD
     failclosed.check_all(FAILCLOSED['generate'])
-=======
     compile_loop_shape()
->>>>>>> w/C04
     m = _strutils()
     keys = list(m._SANITIZE_KEYS)
     flags = _flags_of(m)
